@@ -219,6 +219,7 @@ UNITS['c01'] = {
         ('decl_recursion_point_named_by_plain_ident', 'None => Expr::Recursion(ident),', 'None => Expr::Recursion(decl.ident()),', ['C09.eval.declaration']),
         ('name_uses_counter_not_innermost_scope', 'let scope_id = match self.scopes.last() { Some((id, _)) => *id, None => 0 };', 'let scope_id = self.scope_id_seq;', ['C09.eval.node_identifier']),
         ('pop_gives_identifier_back', 'self.scopes.pop(); }', 'self.scopes.pop(); if self.scope_id_seq > 0 { self.scope_id_seq -= 1; } }', ['C09.eval.pop_scope']),
+        ('literal_status_read_as_number', 'let lex::TokenValue::HttpStatus(status) = literal.value() else {', 'let lex::TokenValue::Number(status) = literal.value() else {', ['C01.site.eval_literal']),
         ('variable_evaluates_the_use_not_the_binder', 'Definition::External(ext) => eval_any(ctx, ext.node(ctx.mods), ann),', 'Definition::External(ext) => eval_any(ctx, variable.node(), ann),', ['C08.eval.variable']),
     ],
 }
@@ -251,7 +252,7 @@ PROPS = {
                        'On the pinned tree four site obligations failed (headers, transfer domain, resource relation, relation uri; plus concat by the same pattern), each confirmed with the real CLI and repaired by fix commit 070d7db. '
                        'The unresolved-variable family (imported generic function) remains as known finding C01.site.var.',
         'assumptions': ['preservation at eval_any (inhabits)', 'compiled(): every evaluated node was type-checked (glue not verified)', 'resolved(): no residual type variable (known finding when violated)', 'refs_are_schemas (evaluator invariant)'],
-        'not_decided': ['preservation (that the inferred tag describes the evaluated value)', 'termination of evaluation / stack depth', 'eval_literal (token value / literal kind agreement), eval_primitive, the `eval` entry point; eval_application / eval_variable / eval_binding / eval_declaration / eval_recursion and the eval_any dispatcher are under contract since 12.8-12.12, their panics being excluded relative to stated preconditions (definition slots set by the resolver, the applied identifier has a function tag, the binder\'s frame is on the stack, the node kind is one of the 19 evaluable kinds)', 'emitter unreachable!/expect sites (oal-openapi)', 'loader/ModuleSet unwraps'],
+        'not_decided': ['preservation (that the inferred tag describes the evaluated value)', 'termination of evaluation / stack depth', 'compose_annotations (YAML annotation parsing); eval_literal is total relative to the lexer invariant "a literal token carries a value of its kind" (unit lex, stated as a precondition), eval_primitive and the `eval` entry point are total; eval_application / eval_variable / eval_binding / eval_declaration / eval_recursion and the eval_any dispatcher are under contract since 12.8-12.12, their panics being excluded relative to stated preconditions (definition slots set by the resolver, the applied identifier has a function tag, the binder\'s frame is on the stack, the node kind is one of the 19 evaluable kinds)', 'emitter unreachable!/expect sites (oal-openapi)', 'loader/ModuleSet unwraps'],
     },
     'C02': {
         'units': ['c02'],
@@ -311,8 +312,6 @@ PROPS = {
              'why': 'stdlib::import is under an ASSUMED contract (declares the built-ins, unqualified, into the innermost scope); Verus rejects its array-of-Rc<dyn> body'},
             {'name': 'P8.core_define', 'kind': 'pinned_text', 'file': 'oal-compiler/src/tree.rs', 'path': [('impl', 'impl Core'), ('fn', 'define')],
              'why': 'rule R-ghost models `core_mut().define(d)` as "the definition slot of the node becomes d"'},
-            _fn_text_scan('A8.eval_literal_ignores_context', 'oal-compiler/src/eval.rs', None, 'eval_literal', [r'_ctx\s*:\s*&mut\s+Context'], [r'_ctx(?!\s*:)']),
-            _fn_text_scan('A8.eval_primitive_ignores_context', 'oal-compiler/src/eval.rs', None, 'eval_primitive', [r'_ctx\s*:\s*&mut\s+Context'], [r'_ctx(?!\s*:)']),
         ],
         'technique': 'Verus contracts on the real scope stack (env.rs), the real resolver walk (resolve.rs) and the real evaluator scope functions (eval.rs): every use is set to the innermost open binder of its name, for all syntax trees; '
                      'the evaluator keeps a stack discipline under which a callee frame holds exactly the callee\'s parameters',
